@@ -18,7 +18,8 @@ pub enum Then {
     Close,
     /// bytes that cannot continue a valid handshake
     Garbage,
-    /// a COMPLETE greeting + READY that is well-formed but must be refused (`offset % 6`: 0 =
+    /// a COMPLETE greeting + READY that is well-formed but must be refused (`offset % 8`; 6 / 7 = an
+    /// incompatible / unknown Socket-Type together with the ESTABLISHED peer's Identity; 0 =
     /// unknown Socket-Type, 1 = ZMTP version 2.1, 2 = unknown mechanism, 3 = 256-byte identity,
     /// 4 / 5 = an intact Socket-Type property followed by garbage inside the READY frame)
     Invalid,
@@ -39,6 +40,9 @@ pub struct Staller {
     pub offset: usize,
     pub then: Then,
 }
+
+/// identity the established peer announces when a refused handshake is going to present it too
+pub const EST_IDENTITY: &[u8] = b"established-peer";
 
 #[derive(Debug, Clone, Serialize, Deserialize, PartialEq, Eq, Hash)]
 pub struct StallCase {
@@ -115,8 +119,11 @@ pub fn stall_outcome(c: &StallCase) -> Outcome {
             let mut want_accepted = 0usize;
             let do_exchange = kind != Kind::Req;
             // established peer
+            // (when a client is going to present a refused handshake under the established
+            // peer's identity, the established peer announces one)
+            let est_identity: Option<&[u8]> = if c.stallers.iter().any(|s| s.then == Then::Invalid && s.offset % 8 >= 6) { Some(EST_IDENTITY) } else { None };
             let mut est: RawConn = match realnet::raw_connect(&ep).await {
-                Ok(mut rc) => match rc.handshake(peer_type, None).await {
+                Ok(mut rc) => match rc.handshake(peer_type, est_identity).await {
                     Ok(()) => rc,
                     Err(e) => {
                         fail!(f, format!("C20/{}/setup", who), "{}", e);
@@ -232,14 +239,27 @@ pub fn stall_outcome(c: &StallCase) -> Outcome {
                         let mut ty = peer_type.to_string();
                         let mut identity: Option<Vec<u8>> = None;
                         let mut tail: Vec<u8> = vec![];
-                        match st.offset % 6 {
+                        match st.offset % 8 {
                             0 => ty = "BOGUS".into(),
                             1 => g.version = (2, 1),
                             2 => g.mechanism = b"GSSAPI".to_vec(),
                             3 => identity = Some(vec![b'i'; 256]),
                             // an intact Socket-Type property, then garbage inside the READY frame
                             4 => tail = vec![0xFF; 7],
-                            _ => tail = vec![3, b'a', b'b'],
+                            5 => tail = vec![3, b'a', b'b'],
+                            // a well-formed READY of a known but INCOMPATIBLE type (the socket's
+                            // own type is compatible with itself only for DEALER / ROUTER, which
+                            // get PUB) that announces the ESTABLISHED peer's identity: refusing
+                            // it must not touch the peer registered under that identity
+                            6 => {
+                                ty = if matches!(kind, Kind::Dealer | Kind::Router | Kind::Pub | Kind::XPub) { "PUB".into() } else { kind.name().to_string() };
+                                identity = Some(EST_IDENTITY.to_vec());
+                            }
+                            // ... and the same with an unknown type
+                            _ => {
+                                ty = "BOGUS".into();
+                                identity = Some(EST_IDENTITY.to_vec());
+                            }
                         }
                         let mut bytes = g.encode();
                         if tail.is_empty() {
@@ -398,7 +418,7 @@ pub fn run(ctx: &Ctx) -> (Report, PropertyMeta) {
                 }
                 cases.push(StallCase { kind: *kind, transport, stallers: vec![Staller { offset: *o, then: Then::Garbage }] });
             }
-            for v in 0..6 {
+            for v in 0..8 {
                 cases.push(StallCase { kind: *kind, transport, stallers: vec![Staller { offset: v, then: Then::Invalid }] });
             }
             for v in 0..2 {
@@ -463,7 +483,7 @@ pub fn run(ctx: &Ctx) -> (Report, PropertyMeta) {
 
     let meta = PropertyMeta {
         level: "fault_enumeration",
-        rule: "real bound sockets on TCP and IPC with a monitor installed; 1..4 raw clients (and, in a few cases, 60..300 at once) send a prefix of a valid greeting+READY (enumerated offsets for one staller, random for several) and then hold, close, or send bytes that cannot continue a handshake (at EVERY offset: zeros to the end of the greeting then a message frame where READY is due; inside READY zeros to the end of the declared frame), or announce a command frame of 2^50 / 2^63+1 bytes where READY is due and stall there, or send a complete but unacceptable handshake (unknown Socket-Type, ZMTP 2.1, unknown mechanism, 256-byte identity); one well-behaved client is established before, one connects while the stallers are still connected, one afterwards. Oracle: both later clients complete the handshake and a message exchange, and the established peer keeps exchanging, while the stallers hold; no AcceptFailed is reported for a client that is merely slow; each handshake that failed (closed / garbage) produces exactly one AcceptFailed; the number of Accepted events equals the number of well-behaved clients, a client connecting afterwards exchanges normally, PUSH/DEALER rotate over exactly the admitted clients (2n sends reach each of n clients twice while stallers are still connected), and a client that never completed its handshake is sent no application message (peer set undisturbed). Non-trivial = at least one staller; distinct by case".into(),
+        rule: "real bound sockets on TCP and IPC with a monitor installed; 1..4 raw clients (and, in a few cases, 60..300 at once) send a prefix of a valid greeting+READY (enumerated offsets for one staller, random for several) and then hold, close, or send bytes that cannot continue a handshake (at EVERY offset: zeros to the end of the greeting then a message frame where READY is due; inside READY zeros to the end of the declared frame), or announce a command frame of 2^50 / 2^63+1 bytes where READY is due and stall there, or send a complete but unacceptable handshake (unknown Socket-Type, ZMTP 2.1, unknown mechanism, 256-byte identity, garbage after an intact Socket-Type property, an incompatible or unknown Socket-Type presented under the ESTABLISHED peer's announced identity); one well-behaved client is established before, one connects while the stallers are still connected, one afterwards. Oracle: both later clients complete the handshake and a message exchange, and the established peer keeps exchanging, while the stallers hold; no AcceptFailed is reported for a client that is merely slow; each handshake that failed (closed / garbage) produces exactly one AcceptFailed; the number of Accepted events equals the number of well-behaved clients, a client connecting afterwards exchanges normally, PUSH/DEALER rotate over exactly the admitted clients (2n sends reach each of n clients twice while stallers are still connected), and a client that never completed its handshake is sent no application message (peer set undisturbed). Non-trivial = at least one staller; distinct by case".into(),
         assumptions: vec![
             "'never completes' is decided with a 5 s watchdog where a handshake needs ~1 ms; the runtime is single-threaded and otherwise idle".into(),
             "REQ sockets under test only complete handshakes (a message exchange needs a single peer)".into(),
